@@ -14,10 +14,13 @@ package main
 
 import (
 	"bytes"
+	"crypto/sha1"
 	_ "embed"
+	"encoding/hex"
 	"fmt"
 	"go/ast"
 	"go/parser"
+	"go/printer"
 	"go/token"
 	"go/types"
 	"os"
@@ -33,15 +36,49 @@ import (
 //go:embed baseline_funcs.txt
 var baselineFuncsTxt string
 
-var baselineFuncs = func() map[string]bool {
-	m := map[string]bool{}
+// baselineFuncs: declKey -> fingerprint of the body (see declFingerprint); baselineHas tests membership.
+var baselineFuncs = func() map[string]string {
+	m := map[string]string{}
 	for _, l := range strings.Split(baselineFuncsTxt, "\n") {
 		if l = strings.TrimSpace(l); l != "" && !strings.HasPrefix(l, "#") {
-			m[l] = true
+			f := strings.Fields(l)
+			fp := ""
+			if len(f) > 1 {
+				fp = f[1]
+			}
+			m[f[0]] = fp
 		}
 	}
 	return m
 }()
+
+func baselineHas(k string) bool { _, ok := baselineFuncs[k]; return ok }
+
+// declFingerprint: hash of the declaration printed without comments and with the function's own name masked,
+// so that a renamed but otherwise untouched function has the fingerprint of the baseline function it was.
+func declFingerprint(fset *token.FileSet, d *ast.FuncDecl) string {
+	own := d.Name.Name
+	var masked []*ast.Ident
+	ast.Inspect(d, func(n ast.Node) bool {
+		if id, ok := n.(*ast.Ident); ok && id.Name == own {
+			masked = append(masked, id)
+			id.Name = "_SELF_"
+		}
+		return true
+	})
+	doc := d.Doc
+	d.Doc = nil
+	var buf bytes.Buffer
+	printer.Fprint(&buf, fset, d)
+	d.Doc = doc
+	for _, id := range masked {
+		id.Name = own
+	}
+	// layout independent: drop all white space
+	txt := strings.Join(strings.Fields(buf.String()), " ")
+	h := sha1.Sum([]byte(txt))
+	return hex.EncodeToString(h[:8])
+}
 
 // declKey names a function declaration independent of its position: "dir:Recv.Name".
 func declKey(relDir string, d *ast.FuncDecl) string {
@@ -92,9 +129,9 @@ func repoGoFiles(repo string) []string {
 	return out
 }
 
-// newDecls parses the repository (with the overlay) and returns the keys of declarations not in the baseline.
-func newDecls(repo string, overlay map[string][]byte) map[string]bool {
-	res := map[string]bool{}
+// scanDecls parses the repository (with the overlay): declKey -> fingerprint of every function declared.
+func scanDecls(repo string, overlay map[string][]byte) map[string]string {
+	res := map[string]string{}
 	fset := token.NewFileSet()
 	for _, p := range repoGoFiles(repo) {
 		var src interface{}
@@ -111,10 +148,19 @@ func newDecls(repo string, overlay map[string][]byte) map[string]bool {
 		}
 		for _, d := range f.Decls {
 			if fd, ok := d.(*ast.FuncDecl); ok {
-				if k := declKey(rel, fd); !baselineFuncs[k] {
-					res[k] = true
-				}
+				res[declKey(rel, fd)] = declFingerprint(fset, fd)
 			}
+		}
+	}
+	return res
+}
+
+// newDecls: the keys of declarations that are not in the baseline.
+func newDecls(repo string, overlay map[string][]byte) map[string]bool {
+	res := map[string]bool{}
+	for k := range scanDecls(repo, overlay) {
+		if !baselineHas(k) {
+			res[k] = true
 		}
 	}
 	return res
@@ -122,23 +168,21 @@ func newDecls(repo string, overlay map[string][]byte) map[string]bool {
 
 // WriteBaseline prints the keys of every function declared in the repository's working tree.
 func WriteBaseline(repo string) {
-	save := baselineFuncs
-	baselineFuncs = map[string]bool{}
-	keys := newDecls(repo, nil)
-	baselineFuncs = save
+	all := scanDecls(repo, nil)
 	var ks []string
-	for k := range keys {
+	for k := range all {
 		ks = append(ks, k)
 	}
 	sort.Strings(ks)
-	fmt.Println("# functions of the tree the rules were confirmed on (ucfgcheck -write-baseline); see normalize.go")
+	fmt.Println("# functions of the tree the rules were confirmed on, with a fingerprint of each body (ucfgcheck -write-baseline); see normalize.go")
 	for _, k := range ks {
-		fmt.Println(k)
+		fmt.Printf("%s\t%s\n", k, all[k])
 	}
 }
 
 // NormNotes records what the last normalisation did (for the evidence file and the console).
 type NormNotes struct {
+	Renamed []string
 	Inlined []string
 	Kept    []string
 }
@@ -158,6 +202,25 @@ func normalizeOverlay(repo, goarch string, overlay map[string][]byte) (map[strin
 	cur := map[string][]byte{}
 	for k, v := range overlay {
 		cur[k] = v
+	}
+	// renamed functions first: a baseline function that is gone while exactly one new function of the same
+	// package (and receiver or no receiver alike) has its body is that function under a new name
+	// (repeated: once a renamed callee has its old name back, the body of a renamed caller matches too)
+	for i := 0; i < 6; i++ {
+		ren := detectRenames(scanDecls(repo, cur))
+		if len(ren) == 0 {
+			break
+		}
+		out, done, err := applyRenames(repo, goarch, cur, ren)
+		if err != nil {
+			notes.Kept = append(notes.Kept, "rename detection: "+err.Error())
+			break
+		}
+		cur = out
+		notes.Renamed = append(notes.Renamed, done...)
+	}
+	if len(newDecls(repo, cur)) == 0 {
+		return cur, notes
 	}
 	failed := map[string]string{} // declKey -> reason it stays
 	inlinedAt := map[string]int{}
@@ -274,7 +337,7 @@ func inlineRound(repo, goarch string, cur map[string][]byte, failed map[string]s
 					continue
 				}
 				k := declKey(rel, fd)
-				if baselineFuncs[k] || failed[k] != "" {
+				if baselineHas(k) || failed[k] != "" {
 					continue
 				}
 				obj, _ := p.TypesInfo.Defs[fd.Name].(*types.Func)
@@ -358,12 +421,20 @@ func inlineRound(repo, goarch string, cur map[string][]byte, failed map[string]s
 	}
 	touched := map[string]bool{}
 	var edited []string
+	// the text the syntax trees of this round were parsed from (edits of this round go to cur only)
+	roundSrc := map[string][]byte{}
+	for k, v := range cur {
+		roundSrc[k] = v
+	}
 	content := func(f *ast.File) (string, []byte, error) {
 		name := fset.Position(f.Pos()).Filename
-		if b, ok := cur[name]; ok {
+		if b, ok := roundSrc[name]; ok {
 			return name, b, nil
 		}
 		b, err := os.ReadFile(name)
+		if err == nil {
+			roundSrc[name] = b
+		}
 		return name, b, err
 	}
 	for _, nc := range order {
@@ -425,7 +496,13 @@ func inlineRound(repo, goarch string, cur map[string][]byte, failed map[string]s
 			}
 			out := res.Content
 			if res.Literalized {
-				out = flattenLiterals(name, res.Content)
+				pkgVars := map[string]bool{}
+				for _, n := range call.pkg.Types.Scope().Names() {
+					if _, isVar := call.pkg.Types.Scope().Lookup(n).(*types.Var); isVar {
+						pkgVars[n] = true
+					}
+				}
+				out = flattenLiterals(name, res.Content, pkgVars)
 				if bytes.Equal(out, res.Content) {
 					failed[nc.key] = "inliner could only replace the call by a function literal at " + fset.Position(call.call.Pos()).String()
 					break
@@ -484,4 +561,139 @@ func renameLocal(fset *token.FileSet, pkg *packages.Package, file *ast.File, src
 		out = append(append(append([]byte{}, out[:so]...), nn...), out[eo:]...)
 	}
 	return out, true
+}
+
+// detectRenames: new declKey -> baseline declKey, for unexported functions whose body equals that of a
+// baseline function that no longer exists (unique in both directions).
+func detectRenames(all map[string]string) map[string]string {
+	missingByFP := map[string][]string{}
+	for k, fp := range baselineFuncs {
+		if _, ok := all[k]; !ok && fp != "" {
+			missingByFP[fp] = append(missingByFP[fp], k)
+		}
+	}
+	newByFP := map[string][]string{}
+	for k, fp := range all {
+		if !baselineHas(k) {
+			newByFP[fp] = append(newByFP[fp], k)
+		}
+	}
+	out := map[string]string{}
+	for fp, ms := range missingByFP {
+		ns := newByFP[fp]
+		if len(ms) != 1 || len(ns) != 1 {
+			continue
+		}
+		m, n := ms[0], ns[0]
+		// same package directory, both functions or both methods
+		md, nd := m[:strings.Index(m, ":")], n[:strings.Index(n, ":")]
+		if md != nd || strings.Contains(m[len(md):], ".") != strings.Contains(n[len(nd):], ".") {
+			continue
+		}
+		name := n[strings.LastIndexAny(n, ":.")+1:]
+		if ast.IsExported(name) || ast.IsExported(m[strings.LastIndexAny(m, ":.")+1:]) {
+			continue // an exported name is API: not a behaviour preserving rename
+		}
+		out[n] = m
+	}
+	return out
+}
+
+// applyRenames renames the functions (all definitions and uses, by object identity) in the overlay.
+func applyRenames(repo, goarch string, cur map[string][]byte, ren map[string]string) (map[string][]byte, []string, error) {
+	env := append(os.Environ(), "GOFLAGS=-mod=mod", "GOPROXY=off", "GOSUMDB=off", "GOWORK=off", "GOTOOLCHAIN=local")
+	if goarch != "" {
+		env = append(env, "GOARCH="+goarch)
+	}
+	fset := token.NewFileSet()
+	cfg := &packages.Config{Mode: packages.LoadSyntax, Dir: repo, Env: env, Fset: fset, Overlay: cur}
+	pkgs, err := packages.Load(cfg, "./...")
+	if err != nil {
+		return nil, nil, err
+	}
+	type site struct {
+		off int
+		old string
+		new string
+	}
+	edits := map[string][]site{}
+	var done []string
+	for _, p := range pkgs {
+		if len(p.Errors) > 0 {
+			return nil, nil, fmt.Errorf("type errors in %s: %v", p.PkgPath, p.Errors[0])
+		}
+		if !(p.PkgPath == modPath || strings.HasPrefix(p.PkgPath, modPath+"/")) {
+			continue
+		}
+		rel := strings.TrimPrefix(strings.TrimPrefix(p.PkgPath, modPath), "/")
+		target := map[types.Object]string{}
+		for _, f := range p.Syntax {
+			for _, d := range f.Decls {
+				if fd, ok := d.(*ast.FuncDecl); ok {
+					if to, ok := ren[declKey(rel, fd)]; ok {
+						if obj := p.TypesInfo.Defs[fd.Name]; obj != nil {
+							target[obj] = to[strings.LastIndexAny(to, ":.")+1:]
+							done = append(done, declKey(rel, fd)+" = "+to)
+						}
+					}
+				}
+			}
+		}
+		if len(target) == 0 {
+			continue
+		}
+		for _, f := range p.Syntax {
+			name := fset.Position(f.Pos()).Filename
+			ast.Inspect(f, func(n ast.Node) bool {
+				id, ok := n.(*ast.Ident)
+				if !ok {
+					return true
+				}
+				obj := p.TypesInfo.Defs[id]
+				if obj == nil {
+					obj = p.TypesInfo.Uses[id]
+				}
+				if nn, ok := target[obj]; ok && obj != nil {
+					edits[name] = append(edits[name], site{fset.Position(id.Pos()).Offset, id.Name, nn})
+				}
+				return true
+			})
+		}
+	}
+	out := map[string][]byte{}
+	for k, v := range cur {
+		out[k] = v
+	}
+	for name, ss := range edits {
+		src, ok := out[name]
+		if !ok {
+			b, err := os.ReadFile(name)
+			if err != nil {
+				return nil, nil, err
+			}
+			src = b
+		}
+		sort.Slice(ss, func(i, j int) bool { return ss[i].off > ss[j].off })
+		buf := append([]byte{}, src...)
+		for _, e := range ss {
+			if string(buf[e.off:e.off+len(e.old)]) != e.old {
+				return nil, nil, fmt.Errorf("rename: text mismatch in %s", name)
+			}
+			buf = append(append(append([]byte{}, buf[:e.off]...), e.new...), buf[e.off+len(e.old):]...)
+		}
+		out[name] = buf
+	}
+	// the renamed text must type-check
+	cfg2 := &packages.Config{Mode: packages.LoadSyntax, Dir: repo, Env: env, Fset: token.NewFileSet(), Overlay: out}
+	pk2, err := packages.Load(cfg2, "./...")
+	if err != nil {
+		return nil, nil, err
+	}
+	for _, p := range pk2 {
+		if len(p.Errors) > 0 {
+			return nil, nil, fmt.Errorf("renamed text does not type-check: %v", p.Errors[0])
+		}
+	}
+	sort.Strings(done)
+	return out, done, nil
 }
